@@ -82,3 +82,10 @@ def fill(check, na):
           "sequences over four shapes.",
           "Real aioice gathering (real time), no connectivity awaited; createOffer in have-remote-offer accepted either way.",
           "DESIGN.md 3/C14")
+    check("C03", "history/structure oracles on real RTCPeerConnection pairs over generated configurations: exceptions and signalling states of the legal call sequence, independent SDP reader for answer-mirrors-offer, complementary directions, then observed connectivity (transport states, data channels opening and carrying uid messages) in real time",
+          "Held on the configurations executed: each negotiation succeeded, the answer mirrors the offer and only selects what "
+          "was offered, directions are complementary, every negotiated transport connected and every negotiated data channel "
+          "carried a message each way, also after a follow-up round. Configurations are sampled from the product space; the "
+          "small sub-space is enumerated in the thorough tier.",
+          "Real aioice over local UDP in real time; answerer codec preferences cannot empty the intersection; a transport still connecting at the 20 s cap is inconclusive.",
+          "DESIGN.md 3/C03")
